@@ -26,7 +26,7 @@ Line == Trace[l]
 Soft(name, cond, detail) == IF cond THEN 0 ELSE IF PrintT(<<"VIOL", name, scn, l, detail>>) THEN 1 ELSE 1
 Drift(what) == PrintT(<<"DRIFT", scn, l, what>>)
 
-NoCase == [tasks |-> <<>>, inb |-> <<>>, outb |-> <<>>]
+NoCase == [tasks |-> <<>>, inb |-> <<>>, outb |-> <<>>, props |-> <<>>]
 Empty(v) == [k \in AllIds |-> v]
 DynPorts(ps) == SelectSeq(ps, LAMBDA p : p >= 9000 /\ p < 30000)
 
